@@ -392,7 +392,22 @@ impl<'a, 'tcx> Cx<'a, 'tcx> {
                 self.operand(op),
                 J::s(ty_str(*ty)),
             ]),
-            Rvalue::Discriminant(p) => J::Arr(vec![J::s("disc".into()), self.place(p)]),
+            Rvalue::Discriminant(p) => {
+                let mut v = vec![J::s("disc".into()), self.place(p)];
+                let pty = p.ty(&self.body.local_decls, tcx).ty;
+                if let ty::Adt(adt, _) = pty.kind() {
+                    if adt.is_enum() {
+                        v.push(J::s(dps(tcx, adt.did())));
+                        let mut names = Vec::new();
+                        for (vi, var) in adt.variants().iter_enumerated() {
+                            let d = adt.discriminant_for_variant(tcx, vi);
+                            names.push(J::Arr(vec![J::Int(d.val as i128), J::s(var.name.to_string())]));
+                        }
+                        v.push(J::Arr(names));
+                    }
+                }
+                J::Arr(v)
+            }
             Rvalue::Repeat(op, _) => J::Arr(vec![J::s("repeat".into()), self.operand(op)]),
             Rvalue::Aggregate(kind, ops) => {
                 let mut o = J::obj();
